@@ -65,11 +65,21 @@ def h_set_norm(sx, cfg):
         target = {idx: ta[idx + (0,)] for idx in np.ndindex(*n)}
         value = ta if cfg.get("shape") != "n" else ta[..., 0]
     elif spec == "callable":
+        # "every function of position": the callable returns one free symbol per cell (centres are pairwise distinct, so this is
+        # as general as an uninterpreted function and keeps the queries in pure nonlinear real arithmetic); that it is evaluated
+        # at the cell centres, in mesh order, is its own obligation
+        order = [tuple(reversed(i)) for i in np.ndindex(*reversed(n))]
+        tcell = {idx: sx.real("T_" + "_".join(map(str, idx))) for idx in order}
+        for idx in order:
+            sx.assume(tcell[idx] >= 0)
+        seen_pts = []
+
         def value(p):
-            return sx.uf("T", *list(np.asarray(p, dtype=object).ravel()))
-        target = {idx: sx.uf("T", *centre[idx]) for idx in np.ndindex(*n)}
-        for idx in np.ndindex(*n):
-            sx.assume(target[idx] >= 0)
+            k = len(seen_pts)
+            seen_pts.append(list(np.asarray(p, dtype=object).ravel()))
+            return tcell[order[k % len(order)]]
+
+        target = dict(tcell)
     elif spec == "zero-in-places":
         ta = sx.real_array("t", (*n, 1))
         zt = sx.bool_array("tz", n)
@@ -89,6 +99,10 @@ def h_set_norm(sx, cfg):
         f = df.Field(mesh, nvdim=nv, value=arr, unit="A/m")
         f.norm = value
     sx.check("shape", tuple(np.shape(f.array)) == (*n, nv))
+    if spec == "callable":
+        sx.check("callable-evaluated-once-per-cell", len(seen_pts) == len(order))
+        for k, idx in enumerate(order[: len(seen_pts)]):
+            sx.check(f"callable-evaluated-at-the-centre{idx}", sx.eq(seen_pts[k], centre[idx]))
     for idx in np.ndindex(*n):
         v = [arr[idx + (k,)] for k in range(nv)]
         new = [f.array[idx + (k,)] for k in range(nv)]
